@@ -78,3 +78,15 @@ func VerifScanConsts() map[string]int {
 		"maxNestingDepth": maxNestingDepth,
 	}
 }
+
+// VerifParseLiteral calls parseLiteral on one token (not empty): the tag type, the value, whether an error came
+// back, and the panic text ("" = none).
+func VerifParseLiteral(token []byte) (tag byte, val any, failed bool, panicked string) {
+	defer func() {
+		if e := recover(); e != nil {
+			panicked = fmt.Sprint(e)
+		}
+	}()
+	t, v, err := parseLiteral(token)
+	return t, v, err != nil, ""
+}
